@@ -62,6 +62,9 @@ SCALE = {
     "pbkdf2_sha256": dict(a=100, b=300, r=200, m=150, even=280, below=-5, belowd=-2, above=2**32 + 5, vint=7, cheap=1500),
     "bsdi_crypt": dict(a=101, b=301, r=201, m=151, even=300, below=-5, belowd=0, above=2**24 + 9, vint=7, cheap=1000),
     "phpass": dict(a=8, b=10, r=9, m=9, even=10, below=3, belowd=5, above=40, vint=1, cheap=10),
+    # a prefix-wrapped scheme with a cost (used by part cat_all only: it is not in POOL)
+    "ldap_sha256_crypt": dict(a=1010, b=1400, r=1200, m=1100, even=1300, below=400, belowd=500, above=2 * 10**9, vint=7, cheap=1500),
+    "ldap_pbkdf2_sha256": dict(a=100, b=300, r=200, m=150, even=280, below=-5, belowd=-2, above=2**32 + 5, vint=7, cheap=1500),
 }
 
 
@@ -662,7 +665,9 @@ def gen_specs(quick, seed):
 # a category option of the scheme's own next to them, with and without a category deprecation list
 # ---------------------------------------------------------------------------
 CAT_ALL_LISTS = (("sha256_crypt",), ("pbkdf2_sha256", "md5_crypt"), ("md5_crypt", "sha256_crypt"), ("bsdi_crypt", "pbkdf2_sha256"),
-                 ("des_crypt", "pbkdf2_sha256", "phpass"))
+                 ("des_crypt", "pbkdf2_sha256", "phpass"),
+                 # prefix-wrapped schemes (objects, not classes) next to their class-based twins
+                 ("ldap_sha256_crypt", "md5_crypt"), ("sha256_crypt", "ldap_sha256_crypt"), ("ldap_pbkdf2_sha256", "pbkdf2_sha256"))
 
 
 def cat_all_cfgs():
@@ -672,7 +677,9 @@ def cat_all_cfgs():
         s0 = rs[0]
         sc = SCALE[s0]
         globs = {"none": {}, "window": {f"{s0}__min_rounds": sc["a"], f"{s0}__max_rounds": sc["b"], f"{s0}__default_rounds": sc["r"]},
-                 "all_vary": {"all__vary_rounds": 0.1, f"{s0}__default_rounds": sc["r"]}}
+                 "all_vary": {"all__vary_rounds": 0.1, f"{s0}__default_rounds": sc["r"]},
+                 # (deprecated but documented: limits for every scheme at once)
+                 "all_window": {"all__min_rounds": sc["a"], "all__max_rounds": sc["b"]}, "all_max": {"all__max_rounds": sc["b"]}}
         alls = {"min": {"admin__all__min_rounds": sc["m"]}, "max": {"admin__all__max_rounds": sc["m"]},
                 "default": {"admin__all__default_rounds": sc["m"]}, "rounds": {"admin__all__rounds": sc["m"]},
                 "vary_float": {"admin__all__vary_rounds": 0.25}, "vary_pct": {"admin__all__vary_rounds": "10%"},
